@@ -649,6 +649,11 @@ class Template(Struct):
     def write(self, ostream, kmip_version=enums.KMIPVersion.KMIP_1_0):
         tstream = BytearrayStream()
 
+        if not self.attributes:
+            raise exceptions.InvalidField(
+                "The Template object is missing the attributes field."
+            )
+
         for attribute in self.attributes:
             attribute.write(tstream, kmip_version=kmip_version)
 
